@@ -83,7 +83,61 @@ def d_hostile(name, seed, base):
     return s
 
 
-DIRECTED = [("many_groups_a", d_many_groups), ("many_groups_b", d_many_groups), ("n6_a", d_n6), ("n6_b", d_n6),
+def d_dirlink(name, seed, base):
+    """A symbolic link lies on the path of the RETAINED files when the dedupe command runs:
+      moved      between `group` and the command, archive/ is moved to bigdisk/archive and a symlink is left in its place
+                 (contents, sizes, mtimes unchanged: the report is still accepted);
+      rewritten  alias -> archive exists from the start and the report's paths are rewritten to go through alias/.
+    The printed script and the real run must still leave the same tree, INCLUDING the texts of the created symlinks.
+    (FsModel has no symlinks in the directory part of a path: no model comparison for these cases, oracles only.)"""
+    rng = core.SplitMix64(seed)
+    s = X.Scn(name, seed, base)
+    variant, op = {"a": ("moved", "softlink"), "b": ("rewritten", "softlink"), "c": ("moved", "link"), "d": ("rewritten", "remove"),
+                   "e": ("moved", "move"), "f": ("rewritten", "dedupe"), "g": ("moved", "softlink"), "h": ("rewritten", "link")}[name.split("_")[1]]
+    s.roots = [os.path.join(s.treedir, b"t")]
+    dups = [b"inbox/IMG_0001 (copy).jpg", b"inbox/scan's.pdf", b"inbox/deep/x y.bin", b"inbox/\xfe\xfdz"]
+    for i, orig in enumerate([b"archive/2023/photo 1.jpg", b"archive/2023/tax.pdf", b"archive/misc/n.bin"]):
+        data = treegen.content(seed + i, 30 + 7 * i)
+        s.mk(b"t/" + orig, data)
+        s.mk(b"t/" + dups[i], data)
+        if rng.chance(1, 2):
+            s.mk(b"t/" + dups[3] + b"%d" % i, data)
+    if variant == "rewritten":
+        os.symlink(b"archive", os.path.join(s.treedir, b"t/alias"))
+    s.stamp_mtimes(rng)
+    s.fmt = rng.choice(["default", "json"])
+    X.pick_opts(s, core.SplitMix64(0), op=op)
+    keepdir = b"archive" if variant == "moved" else b"alias"
+    s.op_opts = ["--keep-path", (os.path.join(s.treedir, b"t", keepdir) + b"/**").decode()]
+    s.sem = {"n": None, "prio": [], "keep_name": [], "keep_path": [("under", os.path.join(s.treedir, b"t", keepdir))], "name": [], "path": [],
+             "iso": [], "mlinks": False}
+    s.no_lock = rng.chance(1, 3)
+    s.fake_mount = False
+    if op == "move":
+        s.move_dir = os.path.join(s.base, b"moved")
+    s.use_sym, s.hostile = False, True
+    s.no_model = True
+    tdir = os.path.join(s.treedir, b"t")
+
+    def post_group():
+        if variant == "moved":
+            os.makedirs(os.path.join(tdir, b"bigdisk"))
+            os.rename(os.path.join(tdir, b"archive"), os.path.join(tdir, b"bigdisk/archive"))
+            os.symlink(b"bigdisk/archive", os.path.join(tdir, b"archive"))
+            return None
+        old, new = os.path.join(tdir, b"archive") + b"/", os.path.join(tdir, b"alias") + b"/"
+        s.report = s.report.replace(old, new)
+        for g in s.groups:
+            g["files"] = [p.replace(old, new) if p.startswith(old) else p for p in g["files"]]
+        return s.groups
+    s.post_group = post_group
+    s.notes.append("symlink on the retained files' path at link time (%s)" % variant)
+    return s
+
+
+DIRECTED = [("dirlink_a", d_dirlink), ("dirlink_b", d_dirlink), ("dirlink_c", d_dirlink), ("dirlink_d", d_dirlink), ("dirlink_e", d_dirlink),
+            ("dirlink_f", d_dirlink), ("dirlink_g", d_dirlink), ("dirlink_h", d_dirlink),
+            ("many_groups_a", d_many_groups), ("many_groups_b", d_many_groups), ("n6_a", d_n6), ("n6_b", d_n6),
             ("hostile_a", d_hostile), ("hostile_b", d_hostile), ("hostile_c", d_hostile)]
 
 
@@ -179,6 +233,10 @@ def run_case(model, scratch, kind, idx, seed):
     except RuntimeError as e:
         viol({"kind": "group_failed"}, str(e), found=False)
         return out
+    if getattr(s, "post_group", None):
+        groups = s.post_group() or groups        # the tree (or the report) changes between `group` and the dedupe command
+    if getattr(s, "no_model", False):
+        model = None
     payload["report"] = s.report.decode("utf-8", "replace")[:3000]
     inv0 = X.inventory(s.treedir)
     sym_in_report = any(inv0.get(p, ("?",))[0] == "l" for g in groups for p in g["files"])
